@@ -480,7 +480,10 @@ class ReadLine(Contract):
 
     def pre(self, c, a):
         rd = a['self']
-        return [ge(a['i'], 0), lt(a['i'], rd.fields['n_il']), mk_bool(rd.fields['segyfile'].fields.get('format') in (1, 5))]
+        out = [ge(a['i'], 0), lt(a['i'], rd.fields['n_il'])]
+        if self.fmt in (1, 5):        # (the call-site view is the IEEE/IBM one; other format codes: RuntimeError variant)
+            out.append(mk_bool(rd.fields['segyfile'].fields.get('format') in (1, 5)))
+        return out
 
 
 for _f in (5, 1, 2):
